@@ -18,4 +18,17 @@ for d in sorted(glob.glob("/verif/seeded/C*-*")):
 tab="| Seed | Change (first line of the author's notes) | Own check | Signatures reported |\n|---|---|---|---|\n"+"\n".join(rows)
 p="/verif/DESIGN.md"; s=open(p).read()
 s=re.sub(r"<!-- SEED-TABLE-BEGIN -->.*?<!-- SEED-TABLE-END -->","<!-- SEED-TABLE-BEGIN -->\n"+tab+"\n<!-- SEED-TABLE-END -->",s,flags=re.S)
-open(p,"w").write(s); print(len(rows),"seeds")
+krows=[]
+for d in sorted(glob.glob("/verif/preserving/C*-*")):
+    if not os.path.exists(d+"/meta.json"): continue
+    m=json.load(open(d+"/meta.json"))
+    notes=open(d+"/notes.md").read() if os.path.exists(d+"/notes.md") else ""
+    title=next((l.strip("# ").strip() for l in notes.splitlines() if l.strip()),"")[:120]
+    if "check_run" in m:
+        r=m["check_run"]; res=("silent ("+r["tier"]+")") if r["silent"] else "ALARM: "+", ".join(r["signatures"][:3])
+    else:
+        res=m.get("result","not run")
+    krows.append(f"| {m['id']} | {title} | {res} |")
+ktab="| Change | First line of the author's notes | Own check |\n|---|---|---|\n"+"\n".join(krows)
+s=re.sub(r"<!-- KEEP-TABLE-BEGIN -->.*?<!-- KEEP-TABLE-END -->","<!-- KEEP-TABLE-BEGIN -->\n"+ktab+"\n<!-- KEEP-TABLE-END -->",s,flags=re.S)
+open(p,"w").write(s); print(len(rows),"seeds",len(krows),"preserving")
